@@ -241,6 +241,9 @@ def run(ctx, anchors=None):
     # ---- R10.3 counting shape
     al = astq.aliases(opstep)
     cfg = opstep.cfg()
+    from . import common as _common
+    FX = _common.executed_flag(opstep)
+    _common.require_names(opstep, ["nOpCount", "stack", "altstack", "vchPushValue", "sigversion", "opcode"], "R10.3")
 
     def is_env_field(n, fld):
         for p in astq.paths(n, al):
@@ -280,9 +283,9 @@ def run(ctx, anchors=None):
                  "++nOpCount is evaluated for every opcode > OP_16 and under no other condition",
                  "++nOpCount is evaluated under conditions %s (expected only opcode > OP_16)" % (other,))
         # before the executed/unexecuted test: dominates every read of fExec
-        fexec_reads = [n for n in opstep.nodes() if n["k"] == "ref" and n["n"] == "fExec" and n.get("dk") == "local"]
+        fexec_reads = [n for n in opstep.nodes() if n["k"] == "ref" and n["n"] == FX and n.get("dk") == "local"]
         if not fexec_reads:
-            raise AnalysisBroken("R10.3: local fExec not found in the operation step")
+            raise AnalysisBroken("R10.3: executed flag not read in the operation step")
         late = [r for r in fexec_reads if not cfg.dominates(inc, r) and not cfg.dominates_block(cfg.position(inc)[0], cfg.position(r)[0])]
         # the increment sits in a conditional; what must hold is that no use of fExec precedes it
         early = [r for r in fexec_reads if cfg.dominates(r, inc)]
@@ -292,9 +295,9 @@ def run(ctx, anchors=None):
     # the push-size limit applies to every decoded push, executed or not (like the op count)
     psz = [n for (f, n, r) in per_limit.get("MAX_SCRIPT_ELEMENT_SIZE", []) if f is opstep]
     if psz and incs:
-        fexec_reads2 = [n for n in opstep.nodes() if n["k"] == "ref" and n["n"] == "fExec" and n.get("dk") == "local"]
+        fexec_reads2 = [n for n in opstep.nodes() if n["k"] == "ref" and n["n"] == FX and n.get("dk") == "local"]
         early2 = [r for r in fexec_reads2 if cfg.dominates(r, psz[0])]
-        nested2 = [astq.estr(c) for (c, t) in S.ast_guards(opstep, psz[0]) if any(x["k"] == "ref" and x["n"] == "fExec" for x in walk(c))]
+        nested2 = [astq.estr(c) for (c, t) in S.ast_guards(opstep, psz[0]) if any(x["k"] == "ref" and x["n"] == FX for x in walk(c))]
         ctx.inst(not early2 and not nested2, "R10.3", "push-size-before-fExec-test", opstep.loc(psz[0]),
                  "the element-size check is evaluated for every decoded push, before the executed/unexecuted test",
                  "the MAX_SCRIPT_ELEMENT_SIZE check is evaluated only for executed pushes (%s): an over-size push in an unexecuted branch is accepted" % (nested2 or "after a test of fExec"))
